@@ -788,7 +788,12 @@ func runC02(c *Ctx) error {
 		}
 	}
 	// reorganisations switching more than 500 headers in one submission (batching thresholds of the storage layer)
-	for _, h := range LongReorgHistories(c.Thorough()) {
+	// (quick: the 503-header displacement only - the extracted tip query is quadratic in the store size, the two
+	// 500-header branches of L2 cost ~9 s of model time; thorough: all of them)
+	for i, h := range LongReorgHistories(c.Thorough()) {
+		if !c.Thorough() && i > 0 {
+			break
+		}
 		longFixed = c02ItemsString(c02LongItems(h))
 		err := fromHistory(h, "long-reorganisation")
 		longFixed = ""
